@@ -7,4 +7,6 @@ MCLeaves10 == {e \in TailShapes : e.id \in {1, 3, 4, 7, 8, 9, 11, 13, 15, 24}}
 MCLeaves6  == {e \in TailShapes : e.id \in {3, 7, 8, 9, 13, 24}}
 PrintTables == PrintT(<<"SHAPES", ToJson(ShapeTable)>>)
 ExportMerges == IF merging' THEN PrintT(<<"BEH", ToJson(hist')>>) ELSE TRUE
+(* the count/totalCount scaling of every shape is exact in units of 1/DEN *)
+ASSUME ShapesAreExact == \A e \in AllShapes : ShapeExact(e)
 ===============================================================================
